@@ -569,8 +569,41 @@ def gen_filter():
     write("Filter.lean", text)
 
 
+def gen_conn():
+    smod = re.sub(r"\s+", "", strip_comments(open(os.path.join(REPO, "src/server/mod.rs")).read()))
+    cmod = re.sub(r"\s+", "", strip_comments(open(os.path.join(REPO, "src/client/mod.rs")).read()))
+    crecv = re.sub(r"\s+", "", strip_comments(open(os.path.join(REPO, "src/client/receiver.rs")).read()))
+    sinit = re.sub(r"\s+", "", strip_comments(open(os.path.join(REPO, "src/server/initial_sync.rs")).read()))
+    server_conds = (
+        "server_connected.run_if(resource_exists::<RenetServer>).run_if(in_state(ServerState::Disconnected)).run_if(resource_added::<NetcodeServerTransport>)" in smod
+        and "server_disconnected.run_if(resource_exists::<RenetServer>).run_if(in_state(ServerState::Connected)).run_if(resource_removed::<NetcodeServerTransport>())" in smod)
+    client_conds = (
+        "set_client_to_connecting.run_if(resource_exists::<RenetClient>).run_if(resource_added::<NetcodeClientTransport>).run_if(in_state(ClientState::Disconnected))" in cmod
+        and "verify_client_connected.run_if(resource_exists::<RenetClient>).run_if(resource_exists::<NetcodeClientTransport>).run_if(in_state(ClientState::Connecting))" in cmod)
+    if "set_client_to_disconnected.run_if(resource_exists::<RenetClient>).run_if(resource_removed::<NetcodeClientTransport>()).run_if(in_state(ClientState::Connected))" in cmod:
+        legacy = True
+    elif "set_client_to_disconnected.run_if(resource_exists::<RenetClient>).run_if(resource_removed::<NetcodeClientTransport>()).run_if(not(in_state(ClientState::Disconnected)))" in cmod:
+        legacy = False
+    else:
+        raise TranslateError("set_client_to_disconnected: run conditions not recognised")
+    # replication chains gated by the Connected states
+    gates = (smod.count(".chain().run_if(resource_exists::<RenetServer>).run_if(resource_exists::<NetcodeServerTransport>).run_if(in_state(ServerState::Connected))") == 2
+             and cmod.count(".chain().run_if(resource_exists::<RenetClient>).run_if(resource_exists::<NetcodeClientTransport>).run_if(in_state(ClientState::Connected))") == 1)
+    verify_checks = "if!client.is_connected(){return;}" in cmod and "client_state.set(ClientState::Connected)" in cmod
+    events = ("event.send(InitialSyncFinished)" in smod and smod.count("InitialSyncFinished)") >= 1
+              and "Message::FinishedInitialSync=>{event_sync_finished.send(InitialSyncFinished);}" in crecv
+              and sinit.count("Message::FinishedInitialSync") == 1)
+    text = "/-! GENERATED by /verif/translate/translate.py from src/{server,client}/mod.rs, src/client/receiver.rs, src/server/initial_sync.rs — do not edit. -/\nnamespace BevySync\nnamespace Generated\n\n"
+    for name, val in (("connServerConditions", server_conds), ("connClientConditions", client_conds), ("connClientDisconnectLegacy", legacy),
+                      ("connReplicationGated", gates), ("connVerifyChecksTransport", verify_checks), ("connSyncFinishedSites", events)):
+        text += "def %s : Bool := %s\n" % (name, str(bool(val)).lower())
+    text += FOOTER
+    write("Conn.lean", text)
+
+
 def main():
     try:
+        gen_conn()
         gen_filter()
         gen_fix()
         gen_guards()
